@@ -373,13 +373,14 @@ theorem fid_convertToBest_self {c : Converter Rat} {v' : ConvertValue Rat} {b : 
 
 /-- **`fit` is idempotent over ℚ for every unit that has a system, whatever the fractions configuration.**
     `hlist`: the units of the system's list have a system themselves (with `SystemsCoherent`: the list's own);
-    `hpick`: `best_unit`, asked again about the converted value in the unit it picked, picks that unit again
+    `hpick`: when the result is the plainly converted value, `best_unit`, asked again about it in the unit it picked,
+    picks that unit again
     (`fid_pick_*` below: non-negative leading numbers; or offset-free units of positive ratio; or a one-entry list). -/
 theorem fid_fit_idempotent {c : Converter Rat} (hc : c.Sound) (hcoh : c.SystemsCoherent)
     (q q' : SQuantity Rat) (u : Unit Rat) (s : System) (hu : unitInfo c q = some u) (hsys : u.system = some s)
     (hlist : ∀ x ∈ ((c.best u.pq).conversions s).unitsOf, x.system ≠ none)
     (hpick : ∀ value v' b0, ConvertValue.ofValue q.value = .ok value →
-      c.convertToBest value u s = .ok (v', b0) →
+      c.convertToBest value u s = .ok (v', b0) → q'.value = v'.toValue →
       ((c.best u.pq).conversions s).bestUnit v' b0 = .ok (some b0))
     (h : fit c q = (q', .ok ())) : fit c q' = (q', .ok ()) := by
   have hum := unitInfo_mem hu
@@ -427,7 +428,7 @@ theorem fid_fit_idempotent {c : Converter Rat} (hc : c.Sound) (hcoh : c.SystemsC
       have hR' : fitFraction c q' b0 (some s') = (q', .ok false) := by
         rw [fid_fitFraction_list _ _ _ _ hL, hq']
         rw [hq'] at hR; exact hR
-      have hpk := hpick value v' b0 hval hcb
+      have hpk := hpick value v' b0 hval hcb (by rw [hq'])
       have hconv : c.convertToBest v' b0 s' = .ok (v', b0) := by
         apply fid_convertToBest_self
         rw [hL, hs.2.2.1]; exact hpk
@@ -514,5 +515,86 @@ theorem fid_pick_single {c : Converter Rat} (hc : c.Sound) {u : Unit Rat} (hu : 
   | none => exact absurd hn' (convertF64_ne_none _ _ _ (by rw [hb0]))
   | some n' =>
     rw [bu_bestUnit_of he hn', he, hpick, hb0]
+
+/-! ### fractions disabled on the way (units without a system in the shipped file), any rule for the pick -/
+
+/-- `fc_fit_idempotent` with the sign condition replaced by the condition it is used for -/
+theorem fid_fit_off_idempotent_of {c : Converter Rat} (hc : c.Sound) (hcoh : c.SystemsCoherent)
+    (q q' : SQuantity Rat) (u : Unit Rat) (hu : unitInfo c q = some u)
+    (hoff : FractionsOffFor c u (u.system.getD c.defaultSystem))
+    (hpick : ∀ value v' b0, ConvertValue.ofValue q.value = .ok value →
+      c.convertToBest value u (u.system.getD c.defaultSystem) = .ok (v', b0) → q'.value = v'.toValue →
+      ((c.best u.pq).conversions (u.system.getD c.defaultSystem)).bestUnit v' b0 = .ok (some b0))
+    (h : fit c q = (q', .ok ())) : fit c q' = (q', .ok ()) := by
+  obtain ⟨value, v', b, hval, hconv, rfl⟩ := fc_fit_off_inv hc q _ u hu hoff h
+  have hum := unitInfo_mem hu
+  have hs := convertToBest_spec hc hum hconv
+  obtain ⟨sym, hsym⟩ := Option.isSome_iff_exists.mp (hc.symbol b hs.2.1)
+  have hq1 : unitInfo c ⟨v'.toValue, b.symbol?⟩ = some b :=
+    unitInfo_symbol hc hs.2.1 rfl (by simp [hsym])
+  have hlist : (c.best b.pq).conversions (b.system.getD c.defaultSystem) =
+      (c.best u.pq).conversions (u.system.getD c.defaultSystem) := by
+    rw [hs.2.2.1]
+    exact fc_bc_ext (hcoh _ _ b hs.1)
+  have hpk := hpick value v' b hval hconv rfl
+  have hconv' : c.convertToBest v' b (b.system.getD c.defaultSystem) = .ok (v', b) := by
+    apply fid_convertToBest_self
+    rw [hlist]; exact hpk
+  have hoff' : FractionsOffFor c b (b.system.getD c.defaultSystem) := by
+    refine ⟨hoff.2 b hs.1, ?_⟩
+    rw [hlist]; exact hoff.2
+  exact fc_fit_off hc _ b hq1 (fc_ofValue_toValue v') hconv' hoff'
+
+/-! ### a decidable condition under which `fit` is idempotent for EVERY quantity -/
+
+/-- for every unit `u`, with `L` the best list `fit` uses for it (its own system's, the default system's for a unit
+    of none): (pick) `u` and all of `L` are offset-free, or `L` has one entry; and (fractions) if `u` has a system every
+    unit of `L` has one, if it has none fractions are disabled for `u` and for `L` -/
+def fitIdemB (c : Converter Rat) : Bool :=
+  c.allUnits.all (fun u =>
+    ((decide (u.difference = 0) &&
+        ((c.best u.pq).conversions (u.system.getD c.defaultSystem)).unitsOf.all (fun x => decide (x.difference = 0))) ||
+      decide (((c.best u.pq).conversions (u.system.getD c.defaultSystem)).entries.length = 1)) &&
+    (match u.system with
+     | some _ => ((c.best u.pq).conversions (u.system.getD c.defaultSystem)).unitsOf.all (fun x => x.system.isSome)
+     | none => decide (FractionsOffFor c u (u.system.getD c.defaultSystem))))
+
+/-- **`fit` is idempotent over ℚ for every quantity** — any value kind, any sign, any unit text — of a sound converter
+    with positive ratios that satisfies `fitIdemB` (decided for the shipped converter). -/
+theorem fid_fit_idempotent_all {c : Converter Rat} (hc : c.Sound) (hcoh : c.SystemsCoherent) (hpos : c.PosRatios)
+    (hB : fitIdemB c = true) (q q' : SQuantity Rat) (h : fit c q = (q', .ok ())) :
+    fit c q' = (q', .ok ()) := by
+  cases hu : unitInfo c q with
+  | none =>
+    have : fit c q = (q, .ok ()) := by unfold fit; simp only [hu]
+    rw [this] at h
+    simp only [Prod.mk.injEq, and_true] at h
+    rw [← h]; exact this
+  | some u =>
+    have hum := unitInfo_mem hu
+    have hBu := (List.all_eq_true.mp hB) u hum
+    simp only [Bool.and_eq_true, Bool.or_eq_true, decide_eq_true_eq, List.all_eq_true] at hBu
+    obtain ⟨hpk, hfr⟩ := hBu
+    have hpick : ∀ value v' b0, ConvertValue.ofValue q.value = .ok value →
+        c.convertToBest value u (u.system.getD c.defaultSystem) = .ok (v', b0) → q'.value = v'.toValue →
+        ((c.best u.pq).conversions (u.system.getD c.defaultSystem)).bestUnit v' b0 = .ok (some b0) := by
+      intro value v' b0 _ hconv _
+      have hs := convertToBest_spec hc hum hconv
+      rcases hpk with ⟨hu0, hall⟩ | hone
+      · exact fid_pick_offset_free hc hum _ hconv hu0 (hall b0 hs.1) (hpos u hum) (hpos b0 hs.2.1)
+      · exact fid_pick_single hc hum _ hconv hone
+    cases hsys : u.system with
+    | none =>
+      have hfr' : FractionsOffFor c u (u.system.getD c.defaultSystem) := by
+        rw [hsys] at hfr ⊢
+        simpa using hfr
+      exact fid_fit_off_idempotent_of hc hcoh q q' u hu hfr' hpick h
+    | some s =>
+      rw [hsys] at hfr hpick
+      simp only [Option.getD_some, List.all_eq_true] at hfr hpick
+      refine fid_fit_idempotent hc hcoh q q' u s hu hsys ?_ hpick h
+      intro x hx hn
+      have := hfr x hx
+      rw [hn] at this; cases this
 
 end Cook
